@@ -97,6 +97,8 @@ type interpreter struct {
 	ghost     map[string]value
 	syncSt    *syncState
 	knownOpen map[string]bool
+	tree      *treeConc
+	allocs    []*value
 }
 
 type deferred struct {
@@ -311,6 +313,9 @@ func visitInstr(fr *frame, instr ssa.Instruction) continuation {
 			// new
 			addr = new(value)
 			fr.env[instr] = addr
+			if i.tree != nil {
+				i.allocs = append(i.allocs, addr)
+			}
 		} else {
 			// local
 			addr = fr.env[instr].(*value)
